@@ -14,12 +14,15 @@ type recStore struct {
 	dels        [][2]uint64
 }
 
-func (r *recStore) FirstIndex() (uint64, error)            { return r.first, nil }
-func (r *recStore) LastIndex() (uint64, error)             { return r.last, nil }
-func (r *recStore) GetLog(uint64, *raft.Log) error          { return raft.ErrLogNotFound }
-func (r *recStore) StoreLog(*raft.Log) error                { return nil }
-func (r *recStore) StoreLogs([]*raft.Log) error             { return nil }
-func (r *recStore) DeleteRange(min, max uint64) error       { r.dels = append(r.dels, [2]uint64{min, max}); return nil }
+func (r *recStore) FirstIndex() (uint64, error)    { return r.first, nil }
+func (r *recStore) LastIndex() (uint64, error)     { return r.last, nil }
+func (r *recStore) GetLog(uint64, *raft.Log) error { return raft.ErrLogNotFound }
+func (r *recStore) StoreLog(*raft.Log) error       { return nil }
+func (r *recStore) StoreLogs([]*raft.Log) error    { return nil }
+func (r *recStore) DeleteRange(min, max uint64) error {
+	r.dels = append(r.dels, [2]uint64{min, max})
+	return nil
+}
 
 func TestC11(t *testing.T) {
 	col := NewCollector("C11")
